@@ -21,11 +21,25 @@ RULE = ("seeded generator: FragUDPMessage on boundary sizes (payload budget-1/bu
         "datagram channel): histories of 3-7 messages under a limit that is constant / growing / shrinking / oscillating / stepping "
         "down and back / random / degenerate (<= header, 0, negative), message sizes placed relative to the limits (between lowest and "
         "highest, above all, L, L+1, > 255 fragments at the low limit only, around the 4096-byte send buffer), limit change or "
-        "connection error in the middle of one send; a real Defragger behind the channel. Non-trivial = the message is actually split (>=2 fragments), or the history emits/withholds "
+        "connection error in the middle of one send; a real Defragger behind the channel; LONG OPERATION: per side one history of "
+        "65536 + 1500..3000 fragmented sends on one session (tiny messages, 2-3 fragments, fake IO): a full cycle of any 16-bit id "
+        "generator from wherever it stands, the id sequence judged for id 0, per-lag repeat counts within the horizon of 64 sends and "
+        "cyclic structure, a second Defragger behind complementary fragment loss. Non-trivial = the message is actually split (>=2 fragments), or the history emits/withholds "
         "a multi-fragment message, or the parser rejects. Distinct = distinct JSON case.")
 ASSUMPTIONS = [
     "quic-go reports a usable MaxDatagramPayloadSize and sends datagrams at or under it whole (library, not modelled)",
     "packet IDs of messages in flight are distinct (hypothesis of C05_no_chimera, as in the property text)",
+    "packet ids, send paths: the model takes the id of every fragmented message as an oracle input; the observation that discharges "
+    "the distinctness hypothesis is made on the implementation in the long-operation class (one history of > 65536 fragmented sends "
+    "per side): within the horizon W = 64 (at most 64 fragmented messages of one session in flight / reorderable at a time) the ids of "
+    "consecutive sends are pairwise distinct and never 0, UP TO CHANCE: the code draws uint16(rand.Intn(0xFFFF))+1, so two given "
+    "messages collide with probability 1/65535 and a history of n sends is expected to contain about (W-1)*n/65535 (~65) honest "
+    "repeats within the horizon, ~1 of them adjacent; a rare honest repeat is therefore NOT a violation. Flagged are: id 0 "
+    "(probability 0 when honest); a lag d < 64 at which >= thr messages repeat the id of the d-th message before (X_d is exactly "
+    "Binomial(n-d,1/65535) for independent uniform ids, thr chosen so that 63*(n/65535)^thr/thr! < 5e-10: thr = 15 for n < 70000); "
+    "a CYCLIC id sequence (period P, >= 90% of >= 256 positions equal the id P sends before: probability < 2^-3000 when honest) "
+    "that has any repeat within the horizon - such a repeat recurs every cycle. False-alarm probability of the whole clause on the "
+    "unchanged tree < 1e-9 per run; a generator whose collision rate is merely a few times 1/65535 is not detected",
     "send paths: the QUIC connection is an oracle (per SendMessage call: a datagram limit L - accept <= L, refuse > L with DatagramTooLargeError{L} - or another error); the random packet id is an oracle argument in 1..65535; C05_send_hist_delivers assumes the drawn ids pairwise distinct and the limit constant during each single send",
 ]
 TRUSTED = ["modelled rather than verified: core/internal/frag/frag.go and the UDPMessage codec of core/internal/protocol/proxy.go (hand transcription in coq/model/C05_Frag.v)",
@@ -328,6 +342,45 @@ def gen_send(rng, scale):
         sid = rng.choice([0, 1, 7, 2**32 - 1, rng.randrange(2**32)])
         for side in ("client", "server"):
             out.append({"k": "send", "side": side, "sid": sid, "pat": pat, "steps": steps})
+    out += gen_sendlong(rng, scale)
+    return out
+
+
+LONG_W = 64          # the in-flight horizon: fragmented messages of one session that may be in flight / reordered together
+LONG_FA = 5e-10      # bound asked for the false-alarm probability of clause (r), per long history
+
+
+def long_thr(n, w=LONG_W, fa=LONG_FA):
+    """Smallest t with (w-1) * (n/65535)^t / t! < fa.  For independent uniform ids on 1..65535 the number X_d of
+    positions i with id[i] == id[i+d] is Binomial(n-d, 1/65535) for every fixed lag d (id[i+d] is fresh with respect
+    to everything before it), P(X_d >= t) <= C(n,t) p^t <= (np)^t / t!; union over the w-1 lags."""
+    t, x = 0, 1.0
+    while (w - 1) * x >= fa:
+        t += 1
+        x *= n / 65535.0 / t
+    return t
+
+
+def gen_sendlong(rng, scale):
+    """LONG OPERATION: one history of more than 65536 fragmented sends on ONE session through the real send path
+    (tiny messages, every one refused whole and split in 2-3 fragments, fake IO), per side.  The length covers a full
+    cycle of any 16-bit id generator wherever it stands when the history starts (the id state may be process-wide:
+    the other send cases of the run have drawn ids before) plus an overlap that lets the harness recognise a cyclic
+    id sequence.  The Coq side sees a summary only."""
+    out = []
+    for side in ("client", "server"):
+        for it in range(1 if scale == 1 else 2):
+            al = rng.choice([3, 5, 9])
+            h = hdr(al)
+            budget = rng.randint(3, 9)
+            # mostly one fragment count (a repeat needs the same count to confuse the far side), sometimes another
+            two = [rng.randint(budget + 1, 2 * budget) for _ in range(3)]
+            dls = rng.choice([two, two + [rng.randint(2 * budget + 1, 3 * budget)], [two[0]]])
+            n = 65536 + rng.randint(1500, 3000) + (65536 if it else 0)
+            out.append({"k": "sendlong", "side": side, "sid": rng.choice([0, 1, 7, 2**32 - 1, rng.randrange(2**32)]),
+                        "n": n, "w": LONG_W, "thr": long_thr(n), "lim": h + budget, "al": al,
+                        "aa": rng.randrange(256), "ab": rng.randrange(256), "dls": dls,
+                        "da": rng.randrange(256), "db": rng.randrange(256), "sample": 16})
     return out
 
 
@@ -388,6 +441,13 @@ def to_coq(c, o):
             calls = "[" + ";".join("[" + ";".join("(%d)" % x for x in call) + "]" for call in so["calls"]) + "]%Z"
             obs.append("(mkSO %s (%d)%%Z (%d)%%Z %s)" % (calls, so["ret"], so["retL"], ll(so["emits"])))
         return "CSend %d %d%%nat [%s] [%s]" % (c["sid"], o.get("buf") or BUF, ";".join(steps), ";".join(obs))
+    if k == "sendlong":
+        if "lags" not in o:
+            return None
+        fr = o["first_repeat"]
+        rel = "None" if fr[0] < 0 else "(Some (%d, %d))" % (fr[0] - o["sample_at"], fr[1] - o["sample_at"])
+        return "CSendIds %d %d %d %d %s %d %s %s %s" % (o["n"], o["w"], c["thr"], o["zeros"], nl(o["lags"]), o["period"],
+                                                        nl(o["sample"]), rel, "true" if o["ok"] else "false")
     return None
 
 
@@ -403,6 +463,8 @@ def klass(c, o):
         return "send:%s:%s:%s" % (c["side"], c.get("pat"), "fragmented" if nf else "whole-only")
     if k == "wire":
         return "wire:" + ("short-buffer" if o.get("n", 0) < 0 else "roundtrip" if "pm" in o else "rejected")
+    if k == "sendlong":
+        return "sendlong:%s:%s" % (c["side"], ">65536" if o.get("n", 0) > 65536 else "short")
     return "parse:" + ("ok" if "pm" in o else str(o.get("perr")))
 
 
@@ -416,6 +478,8 @@ def nontrivial(c, o):
         return any(len(so["calls"]) >= 2 for so in o.get("steps") or [])
     if k == "wire":
         return "pm" in o
+    if k == "sendlong":
+        return o.get("n", 0) > 65536
     return True
 
 
@@ -430,7 +494,7 @@ def fingerprint(c, o):
 
 
 def group_of(c):
-    return 0 if c["k"] != "send" else 1 if c["side"] == "client" else 2
+    return 0 if c["k"] not in ("send", "sendlong") else 1 if c["side"] == "client" else 2
 
 
 def make_send_common():
@@ -483,7 +547,7 @@ def violations_of(cases, outs):
     v = []
     for c, o in zip(cases, outs):
         if o is not None and o.get("ok") is False:
-            v.append({"what": "%s: %s" % (c.get("k") + ("/" + c["side"] if c.get("k") == "send" else ""), o.get("why")),
+            v.append({"what": "%s: %s" % (c.get("k") + ("/" + c["side"] if c.get("k") in ("send", "sendlong") else ""), o.get("why")),
                       "replay": {"case": c, "impl": o}, "fingerprint": fingerprint(c, o), "found_input": True})
     return v
 
@@ -577,7 +641,7 @@ def run(ctx):
     elif mism and impl_bad:
         ctx.say("model/implementation disagree on %d case(s) (implementation also violates the property directly)" % len(mism))
     samples = [{"case": c, "impl": {k: v for k, v in o.items() if k != "i"}} for _, c, o in pairs[:2]]
-    for kind in ("frag", "seq", "send"):
+    for kind in ("frag", "seq", "send", "sendlong"):
         for _, c, o in pairs:
             if c["k"] == kind and nontrivial(c, o) and len(json.dumps(o)) < 6000:
                 samples.append({"case": c, "impl": {k: v for k, v in o.items() if k != "i"}})
